@@ -1,0 +1,97 @@
+// +build verif
+
+package network
+
+// Tag-only accessors for the runtime-monitoring harness (/verif, property C20). Nothing in
+// this file is compiled without the build tag "verif"; it adds no behaviour of its own: it
+// switches on the loop notifications that protocol_manager.go already contains for its own
+// tests (pm.test / pm.testOutput) and exposes read-only views of the two sync caches.
+
+import (
+	"github.com/LemoFoundationLtd/lemochain-core/common"
+)
+
+// Loop notifications of the protocol manager (the values of its unexported test constants).
+const (
+	VerifEvBroadcastTxs     = testBroadcastTxs
+	VerifEvBroadcastBlock   = testBroadcastBlock
+	VerifEvBroadcastConfirm = testBroadcastConfirm
+	VerifEvRcvBlocks        = testRcvBlocks  // rcvBlockLoop finished one received blocks message
+	VerifEvQueueTimer       = testQueueTimer // rcvBlockLoop finished one drain of the block cache (the 500 ms timer)
+	VerifEvStableBlock      = testStableBlock
+	VerifEvAddPeer          = testAddPeer
+	VerifEvRemovePeer       = testRemovePeer
+	VerifEvForceSync        = testForceSync
+	VerifEvDiscover         = testDiscover
+)
+
+// VerifEvents switches the manager's loop notifications on and returns the channel they are
+// sent on. It must be called before Start, and the channel must be read until the process
+// ends: the loops block on it (it is unbuffered).
+func (pm *ProtocolManager) VerifEvents() <-chan int {
+	pm.setTest()
+	return pm.testOutput
+}
+
+// VerifBlockCache returns the cache of blocks that wait for their parents.
+func (pm *ProtocolManager) VerifBlockCache() *BlockCache { return pm.blockCache }
+
+// VerifConfirmCache returns the cache of confirms that wait for their blocks.
+func (pm *ProtocolManager) VerifConfirmCache() *ConfirmCache { return pm.confirmsCache }
+
+// VerifPeerCount returns the number of registered (handshaken) peers.
+func (pm *ProtocolManager) VerifPeerCount() int {
+	pm.peers.lock.RLock()
+	defer pm.peers.lock.RUnlock()
+	return len(pm.peers.peers)
+}
+
+// VerifHeightGroup is one slot of the block cache: a height and the hashes cached for it.
+type VerifHeightGroup struct {
+	Height uint32
+	Hashes []common.Hash
+}
+
+// VerifGroups returns the slots of the block cache in storage order (including empty ones).
+func (c *BlockCache) VerifGroups() []VerifHeightGroup {
+	c.lock.Lock()
+	defer c.lock.Unlock()
+	out := make([]VerifHeightGroup, 0, len(c.cache))
+	for _, g := range c.cache {
+		vg := VerifHeightGroup{Height: g.Height}
+		for h := range g.Blocks {
+			vg.Hashes = append(vg.Hashes, h)
+		}
+		out = append(out, vg)
+	}
+	return out
+}
+
+// VerifConfirmEntry is one cached confirm.
+type VerifConfirmEntry struct {
+	Height uint32
+	Hash   common.Hash
+	Sig    [65]byte
+}
+
+// VerifEntries returns every cached confirm (unordered).
+func (c *ConfirmCache) VerifEntries() []VerifConfirmEntry {
+	c.lock.Lock()
+	defer c.lock.Unlock()
+	var out []VerifConfirmEntry
+	for h, m := range c.cache {
+		for hash, list := range m {
+			for _, d := range list {
+				out = append(out, VerifConfirmEntry{Height: h, Hash: hash, Sig: d.SignInfo})
+			}
+		}
+	}
+	return out
+}
+
+// VerifHeights returns the number of height slots of the confirm cache (including empty ones).
+func (c *ConfirmCache) VerifHeights() int {
+	c.lock.Lock()
+	defer c.lock.Unlock()
+	return len(c.cache)
+}
